@@ -10,7 +10,7 @@ use std::sync::mpsc::{channel, Receiver, RecvTimeoutError};
 use std::time::{Duration, Instant};
 
 pub fn cli() -> String {
-    format!("{}/target/repo/release/cgt-tool", crate::runner::verif_dir())
+    format!("{}/repo/release/cgt-tool", crate::runner::target_dir())
 }
 pub const CHILD_TIMEOUT: Duration = Duration::from_secs(60);
 
@@ -33,7 +33,7 @@ pub struct Scratch {
 impl Scratch {
     pub fn new(label: &str) -> Scratch {
         let n = COUNTER.fetch_add(1, Ordering::SeqCst);
-        let dir = PathBuf::from(format!("{}/target/scratch/{}-{}-{}", crate::runner::verif_dir(), std::process::id(), label, n));
+        let dir = PathBuf::from(format!("{}/scratch/{}-{}-{}", crate::runner::target_dir(), std::process::id(), label, n));
         let _ = std::fs::remove_dir_all(&dir);
         if let Err(e) = std::fs::create_dir_all(dir.join("home")) {
             inconclusive(&format!("cannot create scratch dir {}: {e}", dir.display()));
